@@ -30,13 +30,11 @@ func c18Verdict(t *verifrt.T, src []byte, accepted bool) (strict bool) {
 	strict = verifref.ValidJSON(src, verifref.Relax{})
 	num := verifref.ValidJSON(src, verifref.Relax{NumberGo: true})
 	ctrl := verifref.ValidJSON(src, verifref.Relax{CtrlInString: true})
-	nul := verifref.ValidJSON(src, verifref.Relax{NulEnds: true})
 	esc := verifref.ValidJSON(src, verifref.Relax{AnyEscape: true})
-	lax := verifref.ValidJSON(src, verifref.Relax{NumberGo: true, CtrlInString: true, NulEnds: true, AnyEscape: true})
+	lax := verifref.ValidJSON(src, verifref.Relax{NumberGo: true, CtrlInString: true, AnyEscape: true})
 	and, implies := verifrt.And, verifrt.Implies
 	t.Known("D3-number-forms-outside-RFC-accepted", and(accepted, !strict, num))
 	t.Known("D4-raw-control-character-in-string-accepted", and(accepted, !strict, ctrl))
-	t.Known("D5-embedded-NUL-ends-input", and(accepted, !strict, nul))
 	t.Known("D29-compact-indent-accept-invalid-escapes", and(accepted, !strict, esc))
 	t.Assert("accept-only-listed-language", implies(accepted, lax))
 	t.Assert("valid-json-accepted", implies(strict, accepted))
